@@ -47,8 +47,9 @@ class H:
         ob_b = B()
         ob_dp = A()
         directlyProvides(ob_dp, R1)
+        MySuper = type('MySuper', (super,), {})
         self.OBJ = {'plain': A(), 'b': ob_b, 'dp': ob_dp, 'super': super(B, ob_b),
-                    'none': object()}
+                    'super-subclass': MySuper(B, ob_b), 'none': object()}
         self.KEYS = [((R0,), P0, ''), ((R1,), P0, ''), ((R0,), P1, ''), ((R0,), P0, 'n'),
                      ((R1,), P1, 'n'), ((Interface,), P0, ''), ((None,), P1, '')]
         self.KEYS2 = [((R0, R0), P0, ''), ((R1, R0), P0, ''), ((R0, R1), P1, 'n')]
